@@ -1,8 +1,147 @@
-import Lean.Data.Json
-/- stub: the C14 driver is not built yet -/
-namespace Glom.C14.Driver
-open Lean
+import Glom.Py.Json
+import Glom.Spec.C14
+import Glom.Model.C01
+/-
+  C14 driver: one JSON case in, one JSON verdict out.
 
-def run (_j : Json) : Except String Json := .error "property C14: driver not implemented yet"
+  case:  {"classes":[[cls,{"mro":[…],"dict":b,"iter":b}]…], "heap":[Obj…], "target":Val,
+          "spelling": {"text":"a.*.b"} | {"parts":[{"seg":Val} | {"t":[[op,Val]…]}…]},
+          "mut": null | {"kind":"assign","val":Val} | {"kind":"delete"},
+          "impl": {"ok":Res} | "pae" | {"other":cls} | {"mutated":[Obj…],"err":cls|null} | "timeout"}
+  Res:   {"v":Val} | {"l":[Res…]}
+-/
+namespace Glom.C14.Driver
+open Lean Glom Glom.C14
+
+partial def resOfJson (j : Json) : Except String Res := do
+  if let .ok v := j.getObjVal? "v" then return .val (← valOfJson v)
+  else if let .ok (.arr a) := j.getObjVal? "l" then return .list (← a.toList.mapM resOfJson)
+  else throw s!"bad Res {j.compress}"
+
+partial def resToJson : Res → Json
+  | .val v => Json.mkObj [("v", valToJson v)]
+  | .list xs => Json.mkObj [("l", Json.arr (xs.map resToJson).toArray)]
+
+def clsOfJson (j : Json) : Except String (String × ClsInfo) := do
+  match ← arrOf j with
+  | [n, i] =>
+    return (← strOfJson n, { mro := ← listOfJson strOfJson (← i.getObjVal? "mro"),
+                              hasDict := ← i.getObjValAs? Bool "dict",
+                              iterable := ← i.getObjValAs? Bool "iter" })
+  | _ => throw s!"bad class entry {j.compress}"
+
+def obsOfJson (j : Json) : Except String (Option Obs) := do
+  match j with
+  | .str "pae" => return some .pae
+  | .str "timeout" => return none
+  | _ =>
+    if let .ok r := j.getObjVal? "ok" then return some (.ok (← resOfJson r))
+    else if let .ok c := j.getObjValAs? String "other" then return some (.other c)
+    else if let .ok hp := j.getObjVal? "mutated" then
+      let err ← (match j.getObjVal? "err" with
+        | .ok (.str s) => pure (some s)
+        | _ => pure none : Except String (Option String))
+      return some (.mutated (← heapOfJson hp) err)
+    else throw s!"bad obs {j.compress}"
+
+def obsToJson : Obs → Json
+  | .ok r => Json.mkObj [("ok", resToJson r)]
+  | .pae => Json.str "pae"
+  | .other c => Json.mkObj [("other", c)]
+  | .mutated h e => Json.mkObj [("mutated", heapToJson h),
+      ("err", match e with | some s => Json.str s | none => Json.null)]
+
+def obsEq : Obs → Obs → Bool
+  | .ok a, .ok b => Res.beq a b
+  | .pae, .pae => true
+  | .other a, .other b => a == b
+  | .mutated h e, .mutated h' e' => h == h' && e == e'
+  | _, _ => false
+
+def stepOfJson (j : Json) : Except String (String × Val) := pairOfJson strOfJson valOfJson j
+
+def partOfJson (j : Json) : Except String Glom.C01.Part := do
+  if let .ok v := j.getObjVal? "seg" then return .seg (← valOfJson v)
+  else if let .ok t := j.getObjVal? "t" then return .t (← listOfJson stepOfJson t)
+  else throw s!"bad part {j.compress}"
+
+/-- the model's observation of a read -/
+def modelRead (cs : Classes) (h : Heap) (steps : List (String × Val)) (target : Val) : Obs :=
+  match evalSteps cs h steps target with
+  | .ok r => .ok r
+  | .error (.pae _) => .pae
+  | .error (.other c) => .other c
+
+/-- `Assign(path, val).glomit` / `Delete(path).glomit` with the destination path
+    `steps ++ [("P", key)]` -/
+def modelMutate (cs : Classes) (h : Heap) (steps : List (String × Val)) (key : Val) (kind : MutKind)
+    (target : Val) : Obs :=
+  match evalSteps cs h steps target with
+  | .error (.pae _) => .pae
+  | .error (.other c) => .other c
+  | .ok r =>
+    let f : Heap → Val → Except MErr Heap := match kind with
+      | .assign v => fun h d => assignOne cs h d key v
+      | .delete => fun h d => deleteOne cs h d key
+    let (h', e) := applyForEach (stars steps) f h r
+    .mutated h' (e.map (merrName kind))
+
+def run (j : Json) : Except String Json := do
+  let cs ← listOfJson clsOfJson (← j.getObjVal? "classes")
+  let heap ← heapOfJson (← j.getObjVal? "heap")
+  let target ← valOfJson (← j.getObjVal? "target")
+  let sp ← j.getObjVal? "spelling"
+  let parts ← (do
+    if let .ok t := sp.getObjValAs? String "text" then return Glom.C01.partsOfText t.toList
+    else listOfJson partOfJson (← sp.getObjVal? "parts") : Except String (List Glom.C01.Part))
+  let allSteps := Glom.C01.stepsOfParts parts
+  let mutJ := (j.getObjVal? "mut").toOption.getD Json.null
+  let mutK : Option MutKind ← (match mutJ with
+    | .null => pure none
+    | m => do
+      let k ← m.getObjValAs? String "kind"
+      if k == "assign" then return some (.assign (← valOfJson (← m.getObjVal? "val")))
+      else return some .delete : Except String (Option MutKind))
+  let implObs ← obsOfJson (← j.getObjVal? "impl")
+  if !(heapWF cs heap && classesWF cs) then
+    return Json.mkObj [("skip", true), ("why", "heap / class table not well-formed")]
+  -- wildcard statistics for the histogram
+  let ops := allSteps.map (·.1)
+  let nx := (ops.filter (· == "x")).length
+  let nX := (ops.filter (· == "X")).length
+  let (modelObs, holds, kindStr) ← (match mutK with
+    | none =>
+      let m := modelRead cs heap allSteps target
+      let hd := match implObs with
+        | some o => checkC14 cs heap allSteps none target o
+        | none => false
+      pure (m, hd, "read")
+    | some kind =>
+      match allSteps.reverse with
+      | ("P", key) :: revInit =>
+        let steps := revInit.reverse
+        let m := modelMutate cs heap steps key kind target
+        let hd := match implObs with
+          | some o => checkC14 cs heap steps (some (key, kind)) target o
+          | none => false
+        pure (m, hd, match kind with | .assign _ => "assign" | .delete => "delete")
+      | _ => throw "mutation path must end in a plain segment" : Except String (Obs × Bool × String))
+  let agree := match implObs with
+    | some o => obsEq modelObs o
+    | none => false
+  -- was anything dropped / shared / cyclic?  (for the histogram)
+  let outcome := match modelObs with
+    | .ok (.list xs) => if xs.isEmpty then "empty" else "list"
+    | .ok (.val _) => "value"
+    | .pae => "pae"
+    | .other c => c
+    | .mutated _ (some e) => e
+    | .mutated _ none => "done"
+  let quirk := heap.zipIdx.any (fun p => seqWithDict cs heap (.ref p.2))
+  return Json.mkObj [("agree", agree), ("holds", holds),
+    ("model", obsToJson modelObs),
+    ("timeout", implObs.isNone),
+    ("seq_with_dict", quirk),
+    ("branch", s!"{kindStr}-x{nx}-X{nX}-{outcome}")]
 
 end Glom.C14.Driver
